@@ -2,7 +2,7 @@
 From Coq Require Import List Bool ZArith Lia.
 Import ListNotations.
 From Rosed Require Import Base.Res Base.ListX Base.Utf8 Gem.Segment Gem.GString Model.Util Model.Options Model.Editor
-     Check.Common Proofs.Utf8P Proofs.C04P.
+     Check.Common Proofs.Utf8P Proofs.C04P gen.Funcs Inst.GoFuncs.
 Open Scope Z_scope.
 
 (* For every text that is the UTF-8 encoding of scalar values (i.e. every valid UTF-8
@@ -46,3 +46,10 @@ Print Assumptions C04_valid.
 Theorem C04_utf8_roundtrip : forall rs, scalars rs -> decode (encode rs) = rs.
 Proof. exact decode_encode. Qed.
 Print Assumptions C04_utf8_roundtrip.
+
+(* the position normalisation of the model is the Go function util.RangeToIndexes as it is in
+   the source now: go_RangeToIndexes is regenerated from internal/util/util.go by the translator
+   on every run, statement by statement (Go int read as Z) *)
+Theorem C04_range_to_indexes_is_the_source : forall size s e, go_RangeToIndexes size s e = range_to_indexes size s e.
+Proof. exact go_range_to_indexes_eq. Qed.
+Print Assumptions C04_range_to_indexes_is_the_source.
